@@ -369,8 +369,8 @@ class Ctx:
     called from the check = true region.  `succ` are the blocks that mean `this file is fine, go on`: the loop header
     in the holder, the `Ok` result sites in a helper."""
 
-    def __init__(self, f, region, succ, is_dst, same_contents, view_contents):
-        self.f, self.region, self.succ = f, region, succ
+    def __init__(self, f, region, succ, is_dst, same_contents, view_contents, is_check=None):
+        self.f, self.region, self.succ, self.is_check = f, region, succ, is_check
         self.is_dst, self.same_contents, self.view_contents = is_dst, same_contents, view_contents
         self.rdefs = ret_defs(f)
         self.rets = f.returns()
@@ -423,6 +423,24 @@ def check_region_rules(rep, B):
                ", ".join(short(f.npath) for f, _ in muts), muts[0][0].loc(muts[0][1]) if muts else "")
     rep.guard("R33.1", "no-write-under-check", r1)
 
+    # ---- R33.8 the flag is declared so that passing `--check` turns check mode on
+    def r8():
+        n = 0
+        for nm in ("augment_args", "augment_args_for_update"):
+            f = c.method(B.opt_ty, nm, trait="Args")
+            rep.saw(f)
+            for a in f.calls("Arg::action"):
+                news = [x for x, _ in chain(f, a.args[0], limit=40)[0] if x.matches("Arg::new")]
+                if not news or f.origin(news[0].args[0]).get("s") != "check":
+                    continue
+                n += 1
+                o = f.origin(a.args[1])
+                var = o.get("rv", {}).get("var") if o.get("kind") == "agg" else None
+                rep.ob("R33.8", f"{B.opt_ty}::{nm}: the `check` argument uses ArgAction::SetTrue", var == "SetTrue",
+                       f"action = {var}: passing --check would not enable check mode", f.loc(a.bb))
+        rep.floor("R33.8", "clap declarations of the `check` argument (augment_args, augment_args_for_update)", n, 2)
+    rep.guard("R33.8", "flag declaration", r8)
+
     ctxs = []
     for f, sw, neg in holders:
         rep.guard("R33.2", f"check region of {short(f.npath)}",
@@ -471,8 +489,8 @@ def region_rules(rep, B, f, sw, neg):
            f.all_paths_pass(true_t, ok_blocks, H) and not (set(b for b, k in rdefs if k.startswith("other")) & region),
            "a path from the check = true edge reaches an `Ok` return (or an untyped return value) without visiting the remaining files",
            f.loc(sw))
-    rep.ob("R33.1", f"{fn}: no file-mutating call inside the check = true region",
-           not [c for c in f.calls() if c.bb in region and write_api(c)], "", f.loc(sw))
+    rep.ob("R33.1", f"{fn}: no file-mutating call on the check = true side",
+           not [c for c in f.calls() if c.bb in region and write_api(c) and not B.check_guarded(f, c.bb)], "", f.loc(sw))
 
     # what would be written: the operands of the guarded write site (std::fs::write, or a CLI-crate helper reaching it)
     wsites = [(b, w, c) for b, w, c in B.writes(f) if c is not None and b in f.reachable(false_t, avoid=H)]
@@ -490,7 +508,7 @@ def region_rules(rep, B, f, sw, neg):
 
     ctxs = []
     if [c for c in f.calls(READS) if c.bb in region]:
-        ctxs.append(Ctx(f, region, H, is_dst, same_contents, view_contents))
+        ctxs.append(Ctx(f, region, H, is_dst, same_contents, view_contents, B.is_check))
     else:
         # the comparison lives in a helper of the CLI crate called from the check region
         for c in f.calls():
@@ -545,6 +563,13 @@ def compare_rules(rep, ctx):
         # R33.5 the file read is the file that would be written
         rep.ob("R33.5", f"{fn}: the path read in check mode is the path that would be written", ctx.is_dst(r.args[0]),
                "fs::read and the write call do not take the same destination value", f.loc(r.bb))
+        # ... and is computed the same way in both modes: no definition of it is guarded by the flag
+        calls, fin = chain(f, r.args[0])
+        if fin[0] == "place" and ctx.is_check is not None:
+            dep = [b for b, _, _, _ in f.defs.get(fin[1], []) if b in f.live and
+                   any(ctx.is_check(f, o)[0] for _, _, o in f.guard_edges(b))]
+            rep.ob("R33.5", f"{fn}: the destination path does not depend on the check flag", not dep,
+                   "a definition of the destination is only reached under a test of `check`", f.loc(dep[0]) if dep else "")
         prop = result_tests(f, r)
         rep.ob("R33.3", f"{fn}: the result of the read is tested for failure (`?` or a match)", len(prop) >= 1,
                f"{len(prop)} switches on the Result of the read", f.loc(r.bb))
@@ -932,9 +957,9 @@ def who_may_write(rep, B):
             nsites += 1
             k = (ck, f.path)
             if ck == binkey:
-                ok = f is main or bool(B.call_sites(f)) or "{closure" in f.path
                 rep.ob("R33.6", f"CLI crate: {api} in {short(f.npath)} is one of the check-guarded sites (R33.1)",
-                       ok and (f is main or not B.unguarded(main)), "", f.loc(c.bb))
+                       not B.unguarded(main) and not (f.d.get("trait") is not None and B.unguarded(f)),
+                       "see R33.1", f.loc(c.bb))
                 continue
             rep.ob("R33.6", f"{ck}: {api} in {short(f.npath)} is not reachable from the CLI",
                    k not in seen, "reachable: " + (G.why(parent, k) if k in seen else ""), f.loc(c.bb))
@@ -1013,6 +1038,7 @@ def run(rep, tier):
     rep.rule("R33.5", "the file read / bytes compared are what the write would use")
     rep.rule("R33.6", "who-may-write: no file-writing API reachable from main through the generator crates")
     rep.rule("R33.7", "child processes of generators are argument-less stdin->stdout formatters")
+    rep.rule("R33.8", "the `check` command-line flag is a SetTrue switch")
     box = {}
 
     def setup():
